@@ -47,6 +47,9 @@ def run(ctx):
     needs_stat(ctx, f, cfg)
     from . import rules_C01
     rules_C01.threading(ctx, f, cfg)
+    # the statistics a warm-up rule inherits on reload are real ones: the reuse predicate requires both rules to need statistics
+    from . import rules_C11
+    rules_C11.reuse_predicate(ctx, f, "flow", cfg, R="C08.needs-stat/reuse-predicate")
     ro = roles(ctx, f, cfg)
     if ro is None:
         return
@@ -593,7 +596,19 @@ def cooldown(ctx, f, cfg, ro):
             "stamp": lambda a: ro["stamp"] in _fld(a, ty), "threshold": lambda a: ro["threshold"] in _fld(a, ty),
             "elapsed = now - stamp": lambda a: "op:Sub" in a, "per-second scaling by 1000": lambda a: ("const:1000.0" in a or "const:1000" in a) and "op:Div" in a,
             "old balance": lambda a: ro["balance"] in _fld(a, ty)}
-    missing = [k for k, fn in need.items() if not fn(add_atoms)]
+    # every refill site (there may be one per branch of the condition) has to be complete
+    all_adds = []
+    for bi in sorted(add_blocks):
+        for s_ in b.blocks[bi]["stmts"]:
+            if s_["k"] == "assign" and s_["rv"]["k"] == "bin" and s_["rv"]["op"].startswith("Add"):
+                a_ = set()
+                sl._rvalue(s_["rv"], a_, set())
+                if ro["balance"] in _fld(a_, ty) and ro["threshold"] in _fld(a_, ty):
+                    all_adds.append((bi, a_))
+    missing = sorted({k for bi, a_ in all_adds for k, fn in need.items() if not fn(a_)} | {k for k, fn in need.items() if not fn(add_atoms)})
+    for bi, a_ in all_adds:
+        if any(not fn(a_) for fn in need.values()):
+            addbb = bi
     extra_time = [x for x in add_atoms if x.startswith("const:") and x not in ("const:1000.0", "const:1000")]
     ctx.instance("C08.cooldown/refill-inputs", b.path, {"missing": missing, "other_constants": sorted(extra_time)}, sorted(need), not missing and not extra_time, cfg)
     if missing:
